@@ -379,7 +379,7 @@ Definition drop_ring (s : state) : state * list lev :=
     (s5, l1 ++ [LRegister RSyncCancel] ++ l3 ++ l4 ++ [LMunmap MCq (d_len_cq (s_d s))] ++ l5)
   else (s, []).
 
-(** The repaired [Completions::drop] (proposed_fix_h14.diff): "fetch + poll" is repeated until a
+(** The repaired [Completions::drop] (fbe02e5, the repair of H14): "fetch + poll" is repeated until a
     pass finds nothing to process. [fuel] bounds the number of passes; one more than the number of
     pending completions is always enough (each pass but the last processes at least one). *)
 Fixpoint drain_fixed (fuel : nat) (s : state) : state * list lev :=
